@@ -97,7 +97,7 @@ def main(argv=None):
                 broken_thms.append(f'{t} (no #print axioms output)')
             elif not set(ax) <= lean.ALLOWED_AXIOMS:
                 broken_thms.append(f'{t} (axioms {sorted(set(ax) - lean.ALLOWED_AXIOMS)})')
-    hyg = lean.hygiene()
+    hyg = lean.hygiene(prop)
     if hyg:
         broken_thms.append('forbidden tokens in Lean sources: ' + '; '.join(hyg[:5]))
     leanchecker = None
